@@ -71,8 +71,31 @@ ApiSeeds == [i \in 1..Len(All) |-> [fn |-> All[i][1], in |-> All[i][2]] @@ All[i
 ApiCombos == IF Thorough THEN 1500 ELSE 48
 ApiVecs == SeqMap(LAMBDA p : [op |-> "ApiSweep", fn |-> "api", only |-> p, seeds |-> ApiSeeds, combos |-> ApiCombos, cls |-> p], ApiPkgs)
            \o << [op |-> "ApiSweep", fn |-> "api", only |-> "", seeds |-> << >>, combos |-> ApiCombos, cls |-> "all/emptypool"] >>
+\* families of RELATED accepted values (one member's list is a prefix / a suffix / a one-element variant of another's): every method that
+\* takes another value of the type is called for every ordered pair of members (comparisons that walk two lists in step)
+P1 == << << 97 >>, << 98 >> >>  P2 == << << 99, 97, 112, 115 >>, << 102, 82 >> >>  P3 == << << 104, 111, 115, 116 >>, << 49, 46, 50, 46, 51, 46, 52 >> >>
+P3x == << << 104, 111, 115, 116 >>, << 49, 46, 50, 46, 51, 46, 53 >> >>
+PairFamilies == << << >>, << P1 >>, << P1, P2 >>, << P1, P2, P3 >>, << P1, P2, P3x >>, << P2, P3 >>, << P3 >>, << P1, P3 >> >>
+AddrOf(ps) == EncRouterAddress(5, Zeros(8), << 83, 83, 85, 50 >>, ps)
+CS(fn, items, extra, cls) == [op |-> "CrossSweep", fn |-> fn, items |-> items, cls |-> cls] @@ extra
+Id74 == Id("key", 7, 4)
+CrossVecs ==
+  << CS("ReadRouterAddress", SeqMap(AddrOf, PairFamilies) \o << EncRouterAddress(6, Zeros(8), << 83, 83, 85, 50 >>, << P1 >>), EncRouterAddress(5, Zeros(8), << 83, 83, 85 >>, << P1 >>),
+                                                                EncRouterAddress(5, Zeros(8), << 83, 83, 85, 50, 51 >>, << P1, P2 >>) >>, << >>, "family/options"),
+     CS("ReadMapping", SeqMap(SerMapping, PairFamilies), << >>, "family/pairs"),
+     CS("ReadRouterInfo", SeqMap(LAMBDA as : EncRouterInfo(Id74, 7, Zeros(8), as, 0, Opts, 3),
+                                 << << AddrOf(<< P1 >>) >>, << AddrOf(<< P1 >>), AddrOf(<< P1, P2 >>) >>, << AddrOf(<< P1 >>), AddrOf(<< P1, P2 >>), AddrOf(<< P3 >>) >>, << AddrOf(<< P1, P2 >>) >>, << AddrOf(<< P1, P2 >>), AddrOf(<< P1 >>) >> >>)
+                          \o SeqMap(LAMBDA ps : EncRouterInfo(Id74, 7, Zeros(8), << AddrOf(<< P1 >>) >>, 0, ps, 3), PairFamilies), << >>, "family/addresses-and-options"),
+     CS("ReadLeaseSet2", SeqMap(LAMBDA n : EncLS2(Id74, T4, << 2, 88 >>, 0, << >>, << >>, 1, << EncEncKey(4, 32, Fill(32, 1)) >>, n, [i \in 1..n |-> EncLease2(i, T4, T4)], 7, 3), << 0, 1, 2, 3 >>)
+                         \o SeqMap(LAMBDA k : EncLS2(Id74, T4, << 2, 88 >>, 0, << >>, << >>, k, [i \in 1..k |-> EncEncKey(4, 32, Fill(32, i))], 1, << EncLease2(1, T4, T4) >>, 7, 3), << 1, 2, 3 >>)
+                         \o SeqMap(LAMBDA ps : EncLS2(Id74, T4, << 2, 88 >>, 0, << >>, ps, 1, << EncEncKey(4, 32, Fill(32, 1)) >>, 1, << EncLease2(1, T4, T4) >>, 7, 3), PairFamilies), << >>, "family/leases-keys-options"),
+     CS("ReadLeaseSet", SeqMap(LAMBDA n : EncLeaseSet(Id74, 7, n, [i \in 1..n |-> EncLease(i, T4, Zeros(8))], 3), << 0, 1, 2, 3 >>), << >>, "family/leases"),
+     CS("ReadMetaLeaseSet", SeqMap(LAMBDA n : EncMeta(Id74, T4, << 2, 88 >>, 0, << >>, Opts, n, [i \in 1..n |-> EncMetaEntry(i, 3, T4, 1, << >>)], 7, 3), << 0, 1, 2, 3 >>), << >>, "family/entries"),
+     CS("ReadCertificate", << << 0, 0, 0 >>, << 1, 0, 0 >>, << 1, 0, 1, 9 >>, << 1, 0, 2, 9, 8 >>, << 1, 0, 3, 9, 8, 7 >>, << 5, 0, 4, 0, 7, 0, 4 >>, << 5, 0, 6, 0, 7, 0, 4, 9, 9 >> >>, << >>, "family/payloads"),
+     CS("ReadKeysAndCert", << Id("key", 7, 4), Id("keyx", 7, 4), Id("key", 7, 0), Id("null", 0, 0), Id("key", 11, 4), Id("key", 0, 4) >>, << >>, "family/identities"),
+     CS("ReadDestination", << Id("key", 7, 4), Id("keyx", 7, 4), Id("key", 7, 0), Id("null", 0, 0), Id("key", 11, 4) >>, << >>, "family/identities") >>
 CONSTANT Part       \* "all" | "api" (the extension check X03 replays only the API sweep)
-Vecs == IF Part = "api" THEN ApiVecs ELSE ByteVecs \o RandVecs \o CodeVecs \o ApiVecs
+Vecs == IF Part = "api" THEN ApiVecs ELSE ByteVecs \o RandVecs \o CodeVecs \o CrossVecs \o ApiVecs
 VARIABLE done
 Init == done = FALSE
 Next == ~done /\ ndJsonSerialize(OutFile, Vecs) /\ PrintT(<< "GENERATED", Len(Vecs) >>) /\ done' = TRUE
